@@ -123,3 +123,16 @@ func vArrayOf(v respValue) ([]respValue, bool) {
 	a, ok := v.data.(respArray)
 	return []respValue(a), ok
 }
+
+// vItoa renders a small non-negative concrete number.
+func vItoa(n int) string {
+	if n == 0 {
+		return "0"
+	}
+	s := ""
+	for n > 0 {
+		s = string(rune('0'+n%10)) + s
+		n /= 10
+	}
+	return s
+}
